@@ -1187,6 +1187,14 @@ func genC10(g *G, sc *Scenario, tier string, seed uint64) {
 		tr := map[string]any{"Type": "HttpTransform", "Url": "http://xf.sim/transform?v=" + variant, "SupportContext": g.P(0.4), "TimeOut": 2.0}
 		cfg = jobConfig("job1", map[string]any{"Type": "DatasetSource", "Name": "srcA"}, map[string]any{"Type": "DatasetSink", "Name": "sink"}, tr, jobType, batch)
 		cfg["_variant"], cfg["_parallelism"] = variant, par
+		if g.P(0.4) {
+			// the runs are started by the job's cron trigger, which has a log error handler: transform and sink
+			// are wrapped by the handler's machinery
+			sc.Knobs["viaTrigger"] = 1
+			cfg["paused"] = false
+			cfg["triggers"] = []any{map[string]any{"triggerType": "cron", "jobType": jobType, "schedule": "@every 10m",
+				"onError": []any{map[string]any{"errorHandler": "log", "maxItems": float64(g.PickInt([]int{0, 1, 5}))}}}}
+		}
 	}
 	sc.Ops = append(sc.Ops, Op{K: "addJob", M: cfg})
 	mk := func(i int) Ent {
